@@ -1,6 +1,7 @@
 package main
 
 import (
+	_ "embed"
 	"fmt"
 	"go/ast"
 	"go/token"
@@ -24,6 +25,11 @@ var modulePkgs = []string{
 	modPath + "/x/cctp/client/cli",
 }
 
+//go:embed testdata/control.go.txt
+var controlSource []byte
+
+const controlPkgPath = modPath + "/x/cctp/zzverifcontrol"
+
 // Prog is the loaded, type-checked and SSA-built program for one tree.
 type Prog struct {
 	Root  string
@@ -33,11 +39,15 @@ type Prog struct {
 	SSA   *ssa.Program
 	SPkgs map[string]*ssa.Package
 	// module functions (non-generated files), incl. anonymous functions
-	Funcs    []*ssa.Function
-	funcInfo map[*ssa.Function]*FuncInfo
-	genFiles map[string]bool // generated file names (absolute)
-	modFiles map[string]bool // non-generated module files (absolute)
-	LoadS    float64
+	Funcs []*ssa.Function
+	// positive-control fixture (virtual package, overlaid)
+	Control      *packages.Package
+	ControlSSA   *ssa.Package
+	ControlFuncs []*ssa.Function
+	funcInfo     map[*ssa.Function]*FuncInfo
+	genFiles     map[string]bool // generated file names (absolute)
+	modFiles     map[string]bool // non-generated module files (absolute)
+	LoadS        float64
 }
 
 func goEnv() []string {
@@ -65,6 +75,9 @@ func Load(root string) (*Prog, error) {
 		Dir:   root,
 		Env:   goEnv(),
 		Tests: false,
+		Overlay: map[string][]byte{
+			filepath.Join(root, "x", "cctp", "zzverifcontrol", "control.go"): controlSource,
+		},
 	}
 	pkgs, err := packages.Load(cfg, "./x/...")
 	if err != nil {
@@ -87,8 +100,15 @@ func Load(root string) (*Prog, error) {
 		return nil, fmt.Errorf("type errors in module code: %s", strings.Join(errs, "; "))
 	}
 	for _, pk := range pkgs {
-		p.Pkgs[pk.PkgPath] = pk
 		p.Fset = pk.Fset
+		if pk.PkgPath == controlPkgPath {
+			p.Control = pk
+			continue
+		}
+		p.Pkgs[pk.PkgPath] = pk
+	}
+	if p.Control != nil && len(p.Control.Errors) > 0 {
+		return nil, fmt.Errorf("positive-control fixture does not type-check: %v", p.Control.Errors)
 	}
 	for _, want := range modulePkgs {
 		if p.Pkgs[want] == nil {
@@ -153,6 +173,39 @@ func Load(root string) (*Prog, error) {
 		}
 	}
 	sort.Slice(p.Funcs, func(i, j int) bool { return p.Funcs[i].String() < p.Funcs[j].String() })
+	if p.Control != nil {
+		p.ControlSSA = prog.Package(p.Control.Types)
+		if p.ControlSSA != nil {
+			var addc func(fn *ssa.Function)
+			addc = func(fn *ssa.Function) {
+				if fn == nil || fn.Blocks == nil {
+					return
+				}
+				p.ControlFuncs = append(p.ControlFuncs, fn)
+				for _, an := range fn.AnonFuncs {
+					addc(an)
+				}
+			}
+			for _, m := range p.ControlSSA.Members {
+				switch m := m.(type) {
+				case *ssa.Function:
+					if m.Synthetic == "" {
+						addc(m)
+					}
+				case *ssa.Type:
+					for _, T := range []types.Type{m.Type(), types.NewPointer(m.Type())} {
+						ms := prog.MethodSets.MethodSet(T)
+						for i := 0; i < ms.Len(); i++ {
+							if fn := prog.MethodValue(ms.At(i)); fn != nil && fn.Synthetic == "" {
+								addc(fn)
+							}
+						}
+					}
+				}
+			}
+			sort.Slice(p.ControlFuncs, func(i, j int) bool { return p.ControlFuncs[i].String() < p.ControlFuncs[j].String() })
+		}
+	}
 	return p, nil
 }
 
